@@ -112,6 +112,9 @@ def bucketUnmarshal (d : Bytes) : Res Bucket :=
   else .ok ⟨BitVec.ofNat 32 (leVal ((d.drop countOff).take 4)), BitVec.ofNat 64 (leVal ((d.drop hashSumOff).take 8)),
             BitVec.ofNat 256 (beVal (d.drop keySumOff))⟩
 
+/-- `NewIblt(numBuckets)`: fewer than `k` buckets are padded to `k` (`Iblt.New()` = `NewIblt(numBuckets())`) -/
+def newIbltBuckets (k numBuckets : Nat) : Nat := if numBuckets < k then k else numBuckets
+
 /-- `Iblt.MarshalBinary` on the bucket list -/
 def ibltMarshal : List Bucket → Bytes
   | [] => []
@@ -228,5 +231,39 @@ def loadStateBytes {n : Nat} (cfg : Cfg) (rawX rawI : List (Bytes × Bytes)) (lc
      | (_, .panic s) => (m0, .panic s))
   | .err e => (m0, .err e)
   | .panic s => (m0, .panic s)
+
+/-! ### dag.go metadata getters on what the reader returned -/
+
+/-- what `reader.Get(key)` gave: `ErrKeyNotFound`, another storage error, or the value -/
+inductive GetRes where
+  | notFound
+  | failed
+  | value (b : Bytes)
+  deriving Repr, DecidableEq
+
+/-- dag.go `getHighestClockValue`: an absent key AND any other storage error read as 0 -/
+def getHighestClockValue : GetRes → Res Nat
+  | .notFound => .ok 0
+  | .failed => .ok 0
+  | .value b => bytesToClock b
+
+/-- dag.go `getNumberOfTransactions` -/
+def getNumberOfTransactions : GetRes → Res Nat
+  | .notFound => .ok 0
+  | .failed => .ok 0
+  | .value b => bytesToCount b
+
+/-- `hash.FromSlice`: `copy` into a zeroed 32-byte array (shorter input is zero-padded, longer input is cut) -/
+def fromSlice (b : Bytes) : Ref :=
+  refOfBytes ((b.take hashSize) ++ List.replicate (hashSize - b.length) 0)
+
+/-- dag.go `getHead`: absent = `EmptyHash`, a storage error is returned -/
+def getHead : GetRes → Res Ref
+  | .notFound => .ok 0
+  | .failed => .err "storage"
+  | .value b => .ok (fromSlice b)
+
+/-- what `dag.add` puts into the metadata shelf: lc_high, tx_num, and head_ref when a head was chosen -/
+def headBytes (h : Option Ref) : GetRes := match h with | some r => .value (bytesOfRef r) | none => .notFound
 
 end Nuts.C08.Codec
